@@ -23,7 +23,7 @@ ADDENDA = {
  "C08": "Also decides that both replication encoders transmit every attribute change id, skipping attributes only for schema/range reasons, never because of the entry's values.",
  "C09": "Also decides that the incremental consumer hands every incoming entry to the conflict/merge tables (nothing removed or filtered before).",
  "C11": "Also decides the trim rules: only revocations older than the trim point are dropped, and a forced size trim never looks at the session state.",
- "C12": "Also decides field routing for passwords: every Kdf field is stored in, and read back from, the same field (writer then reader is the identity on fields).",
+ "C12": "Also decides field routing for passwords: every Kdf field is stored in, and read back from, the same field (writer then reader is the identity on fields); and that the OAuth2 session set's derived resource-server filter is only ever accumulated (|=) by its decoders and mutators.",
  "C13": "Also decides that the RUV delta functions consult the cleared-in-this-transaction marker that restore() sets.",
  "C15": "Also decides that the schema check's exemption for class conflict is only usable on recycled entries (conflict added with recycled, removed with it), and that every write path refreshes the cached schema.",
  "C16": "Also decides that no ValueSetT::remove removes references inside the closure of a short-circuiting iterator adapter.",
@@ -32,11 +32,14 @@ ADDENDA = {
  "C20": "Also rejects any arm (guarded or not) that takes an attribute-bearing Modify variant past the uuid test.",
  "C21": "Also decides that each GidNumber hook runs over the whole candidate list (no filtering adapter).",
  "C22": "Also decides that Spn::modify_inner sets the spn of every account/group candidate under the class test only.",
- "C24": "Also decides that every write path, replication included, refreshes the cached access control profiles.",
+ "C24": "Also decides that every write path, replication included, refreshes the cached access control profiles, and that every field of a parsed create/modify profile is read from its own stored attribute (class lists fall back to acp_modify_class only).",
+ "C23": "Also decides that the readable attribute set, receiver and target of a parsed search profile are read from their own stored attributes.",
  "C26": "Also decides that revive accumulates one membership modification per revived entry and group.",
+ "C27": "Also decides that an AuthState::Denied reply is built only by the session's own state functions (which record the denial), never by the caller.",
  "C28": "Also decides that soft-lock policies are produced only from the credential (no constant policy on an authentication path).",
  "C31": "Also decides that every write path, replication included, refreshes the cached system configuration (badlist).",
- "C32": "Also decides that entry lookups on the token-to-identity paths hide recycled and tombstoned entries.",
+ "C32": "Also decides that entry lookups on the token-to-identity paths hide recycled and tombstoned entries, and that every call of check_within_valid_time feeds the lower bound from valid_from and the upper from expire.",
+ "C33": "Also decides that the privilege window of a re-issued token depends only on the current time and the policy's privilege_expiry() (other inputs only as a min() bound).",
  "C34": "Also decides that every write path, replication included, reloads key material, with a class-only condition on the replication path.",
  "C40": "Also decides that the executed filter and the access-checked filter of LDAP search/compare events come from the same client filter.",
  "C42": "Also requires the request grammar to hand on the current nesting budget in every recursive alternative (no fresh restart).",
